@@ -320,6 +320,20 @@ func (p *Program) verifyLemma(c *Contract) *FuncResult {
 		env.Vars[n] = f
 		res.ModelVars = append(res.ModelVars, f)
 	}
+	// a lemma may only rest on lemmas stated before it: no circular arguments
+	myIdx := len(p.lemmas)
+	for i, l := range p.lemmas {
+		if l == c {
+			myIdx = i
+		}
+	}
+	for _, u := range lemmaDeps(c) {
+		for i, l := range p.lemmas {
+			if l.Short == u && i >= myIdx {
+				ex.unsup(token.NoPos, "lemma %s rests on %s, which is not stated before it", c.Short, u)
+			}
+		}
+	}
 	// earlier lemmas used as hypotheses (universally quantified over their parameters)
 	for _, u := range c.Uses {
 		var lc *Contract
@@ -348,6 +362,51 @@ func (p *Program) verifyLemma(c *Contract) *FuncResult {
 		ex.emit("(assert %s)", t.S)
 	}
 	ex.obls = append(ex.obls, &Obl{Name: res.Name + "#cover:entry", Kind: "cover", Goal: tTrue, Prefix: len(ex.lines), Cover: true, Props: c.Props})
+	for _, a := range c.Applies {
+		call, ok := a.E.(*ECall)
+		if !ok {
+			ex.unsup(token.NoPos, "lemma %s: apply needs lemma(args)", c.Short)
+			continue
+		}
+		var lc *Contract
+		for _, l := range p.lemmas {
+			if l.Short == call.Fn {
+				lc = l
+			}
+		}
+		if lc == nil || len(lc.Params) != len(call.Args) {
+			ex.unsup(token.NoPos, "lemma %s: cannot apply %s", c.Short, call.Fn)
+			continue
+		}
+		inst := &Env{Vars: map[string]Term{}, P: p}
+		bad := false
+		for i, arg := range call.Args {
+			t, err := env.tr(arg)
+			if err != nil || t.Sort != lc.ParamSorts[i] {
+				ex.unsup(token.NoPos, "lemma %s: argument %d of %s: %v (sort %s, want %s)", c.Short, i, call.Fn, err, t.Sort, lc.ParamSorts[i])
+				bad = true
+				break
+			}
+			inst.Vars[lc.Params[i]] = t
+		}
+		if bad {
+			continue
+		}
+		var pre, post []Term
+		for _, r := range lc.Requires {
+			t, err := inst.tr(r.E)
+			if err == nil {
+				pre = append(pre, t)
+			}
+		}
+		for _, e := range lc.Ensures {
+			t, err := inst.tr(e.E)
+			if err == nil {
+				post = append(post, t)
+			}
+		}
+		ex.emit("(assert %s) ; instance of lemma %s", implies(and(pre...), and(post...)).S, call.Fn)
+	}
 	for _, h := range c.Hints {
 		t, err := env.tr(h.E)
 		if err != nil {
